@@ -88,7 +88,7 @@ Judge(s, e) ==
 
 Step(s, e) ==
   CASE e.ev = "Run"   -> [id |-> e.id, f |-> <<>>, tmax |-> e.tmax, seen |-> <<>>]
-    [] e.ev = "IFile" -> [s EXCEPT !.f = e]
+    [] e.ev = "IFile" -> [s EXCEPT !.f = e, !.seen = <<>>]
     [] e.ev = "Read"  -> [s EXCEPT !.seen = Append(@, [key |-> Key(e), ids |-> e.ids])]
     [] e.ev = "End"   -> NoRun
     [] OTHER -> s
